@@ -14,6 +14,8 @@ mod bio;
 mod alloc;
 #[cfg(feature = "full")]
 mod sweep;
+#[cfg(feature = "full")]
+mod sweep32;
 #[cfg(feature = "std")]
 mod drops;
 mod types;
@@ -116,6 +118,8 @@ fn main() {
         Some("gen") => gen::cmd_gen(&args[1..]),
         #[cfg(feature = "full")]
         Some("sweep") => sweep::cmd_sweep(&args[1..]),
+        #[cfg(feature = "full")]
+        Some("sweep32") => sweep32::cmd_sweep32(&args[1..]),
         Some("c20run") => c20::cmd_run(&args[1..]),
         #[cfg(feature = "full")]
         Some("c20corpus") => c20::cmd_corpus(&args[1..]),
